@@ -52,6 +52,9 @@ def obsTimes (tok : String) : List Int :=
 structure DSt where
   /-- per collect (identified by its unique time): the topics it may legitimately reach -/
   reachOf : List (Int × List String) := []
+  /-- per collect: the event as its own (direct) topic hands it to handlers, and the publish specs registered on
+  that topic at that moment — an event seen on a target one hop away must satisfy that spec's match -/
+  hop1 : List (Int × SEv × List Spec) := []
   model : Svc.St := {}
   direct : List String := []                         -- topics collected directly so far
   /-- independent bookkeeping for the spec clauses: per direct topic the collects so far (id, level, time, prev) -/
@@ -91,6 +94,15 @@ def judge (_id : String) (lines : Array String) : Verdict := Id.run do
           | some (_, r) =>
             if !r.contains T then
               return .specfail "delivered-only-through-registered-handlers" s!"recorder {esc n} topic {esc T} received the event collected at time {t}, but no registered handler chain leads to {esc T}"
+          -- one hop from the collected topic: the (single) spec publishing to T must match the event
+          match st.hop1.find? (fun p => p.1 == t) with
+          | some (_, ev', sps) =>
+            match sps.filter (fun sp => sp.targets.contains T) with
+            | [sp] =>
+              if (matchTable.getD sp.midx .all).eval ev' != some true then
+                return .specfail "match-condition-holds" s!"recorder {esc n} topic {esc T} received the event collected at time {t} through handler {esc sp.hid}, whose match expression #{sp.midx} does not hold for it"
+            | _ => pure ()
+          | none => pure ()
         if ts.eraseDups.length != ts.length then
           return .specfail "delivery-exactly-once" s!"recorder {esc n} topic {esc T} received an event twice: {o}"
       if m != "-" then st := addBr st "recorder-nonempty"
@@ -105,7 +117,8 @@ def judge (_id : String) (lines : Array String) : Verdict := Id.run do
           let prev := match ((st.directLog.filter (fun p => p.1 == T)).map (·.2)).reverse.find? (fun e => e.id == ev.id) with
             | some p => p.level
             | none => 0
-          st := { st with reachOf := (ev.time, reach st.model.specs (st.model.specs.length + 1) [T]) :: st.reachOf }
+          st := { st with reachOf := (ev.time, reach st.model.specs (st.model.specs.length + 1) [T]) :: st.reachOf,
+                          hop1 := (ev.time, { ev with prev := prev }, st.model.specs.filter (fun sp => sp.topic == T)) :: st.hop1 }
           st := { st with direct := if st.direct.contains T then st.direct else T :: st.direct,
                           directLog := st.directLog ++ [(T, { ev with prev := prev })] }
         | .recorder T n =>
